@@ -35,6 +35,13 @@ def family():
     ok("v4:utf8-key", "UTF-8 key with space, plus, percent", A.v4_header("GET", "/bkt/ké y+%/中"))
     ok("v4:header-inner-spaces", "signed header with sequential inner spaces", A.v4_header(extra_headers=[("x-amz-meta-a", "a   b  c")]))
     ok("v4:header-repeated", "signed header sent twice", A.v4_header(extra_headers=[("x-amz-meta-a", "1"), ("x-amz-meta-a", "2")]))
+    ok("v4:header-repeated-desc", "signed header sent twice, values in descending order (joined in the order sent)",
+       A.v4_header(extra_headers=[("x-amz-meta-a", "zeta"), ("x-amz-meta-a", "alpha")]))
+    def swap_rep(rq):
+        i = [k for k, (n, v) in enumerate(rq["headers"]) if n == "x-amz-meta-a"]
+        rq["headers"][i[0]], rq["headers"][i[1]] = rq["headers"][i[1]], rq["headers"][i[0]]
+    no("v4:alt-repeated-swapped", "values of a repeated signed header swapped after signing",
+       A.v4_header(extra_headers=[("x-amz-meta-a", "alpha"), ("x-amz-meta-a", "zeta")], mutate=swap_rep))
     ok("v4:dup-query-sorted", "repeated query name, values in order", A.v4_header("GET", "/bkt/key", pairs=[("x-dup", "a"), ("x-dup", "b")]))
     ok("v4:dup-query-unsorted", "repeated query name, values not in order (the specification sorts by name, then value)",
        A.v4_header("GET", "/bkt/key", pairs=[("x-dup", "b"), ("x-dup", "a")]))
